@@ -110,6 +110,9 @@ def run(tier, seed, replay=None):
             try:
                 if op == 'insert_knot':
                     x = b.start() + (b.end() - b.start()) * rng.randint(1, 63) / 64.0
+                    if b.periodic >= 0 and rng.random() < 0.3:
+                        # a knot outside the base period of a periodic direction is the knot wrapped into it
+                        x += rng.choice([-2, -1, 1, 2]) * (b.end() - b.start())
                     args = [x, d]
                     o.insert_knot(x, d)
                 elif op == 'refine':
